@@ -219,9 +219,9 @@ pub mod unit_trackers {
 
     impl ChainTracker {
         pub fn new<T: ToPrimitive>(n_params: usize, initial_state: &[T]) -> (r: Self)
-            requires n_params >= 1, initial_state@.len() == n_params, convertible(initial_state@)
+            requires n_params >= 1, initial_state@.len() >= n_params, convertible(initial_state@)      // (fewer values: the code panics; more: the first n_params are used)
             ensures wf(r, Seq::<Seq<Fl>>::empty()), r.n_params == n_params,      // [C13.tracker_new_is_empty]
-                a1(r.last_state) == conv(initial_state@),
+                a1(r.last_state) == conv(initial_state@).subrange(0, n_params as int),
         //@body id=tracker_new file=src/stats.rs impl_self=ChainTracker name=new props=C13
         //@sig fn new < T > (n_params : usize , initial_state : & [T]) -> Self where T : num_traits :: ToPrimitive + Clone ,
         //@rules R-f64 R-lit
@@ -229,15 +229,15 @@ pub mod unit_trackers {
         //@| requires x.f32_of() is Some
         //@| ensures r == x.f32_of()->Some_0
         //@anchor fin scope=fn pos=before match="^Self \\{"
-        //@| proof { assert(a1(last_state) =~= conv(initial_state@)); }
+        //@| proof { assert(a1(last_state) =~= conv(initial_state@).subrange(0, n_params as int)); }
         //@end
 
         pub fn step<T: ToPrimitive>(&mut self, x: &[T]) -> (r: Result<(), BoxDynError>)
             requires old(self).n < u64::MAX, convertible(x@),
                 a1(old(self).mean).len() == old(self).n_params && a1(old(self).mean_sq).len() == old(self).n_params && a1(old(self).last_state).len() == old(self).n_params && old(self).n_params >= 1,
             ensures
-                (r is Ok) == (x@.len() == old(self).n_params),                                           // [C13.tracker_step_ok_iff_right_length]
-                r is Ok ==> forall |fed: Seq<Seq<Fl>>| #[trigger] wf(*old(self), fed) && fin1(conv(x@)) ==> wf(*final(self), fed.push(conv(x@))),   // [C13.tracker_step_appends_the_fed_state]
+                (r is Ok) == (x@.len() >= old(self).n_params),                                           // [C13.tracker_step_fails_iff_too_few_values]
+                r is Ok ==> forall |fed: Seq<Seq<Fl>>| #[trigger] wf(*old(self), fed) && fin1(conv(x@)) ==> wf(*final(self), fed.push(conv(x@).subrange(0, old(self).n_params as int))),   // [C13.tracker_step_appends_the_fed_state]
         //@body id=tracker_step file=src/stats.rs impl_self=ChainTracker name=step props=C13
         //@sig fn step < T > (& mut self , x : & [T]) -> Result < () , Box < dyn Error > > where T : num_traits :: ToPrimitive + Clone ,
         //@rules R-f64 R-lit R-cast R-dynerr R-const
@@ -249,7 +249,7 @@ pub mod unit_trackers {
         //@| ensures r == ema(p_accept, !arr_eq(v1(a), v1(b)))
         //@anchor x0 scope=fn pos=after match="^let x_arr ="
         //@| let ghost xs = a1(x_arr);
-        //@| proof { assert(xs =~= conv(x@)); }
+        //@| proof { assert(xs =~= conv(x@).subrange(0, self.n_params as int)); }
         //@anchor p0 scope=fn pos=after match="^let p_start ="
         //@| let ghost last0 = a1(self.last_state);
         //@anchor p1 scope=fn pos=before match="^self \\. last_state = x_arr"
@@ -455,7 +455,7 @@ pub mod unit_trackers {
                 old(self).n_chains * old(self).n_params <= usize::MAX,
                 val(old(self).p_accept) is Fin && 0real <= rv(old(self).p_accept) <= 1real,
             ensures
-                (r is Ok) == (x@.len() == old(self).n_chains * old(self).n_params),                                           // [C13.multi_tracker_step_ok_iff_right_length]
+                (r is Ok) == (x@.len() >= old(self).n_chains * old(self).n_params),                                           // [C13.multi_tracker_step_fails_iff_too_few_values]
                 r is Ok ==> forall |fed: Seq<Seq<Seq<Fl>>>| #[trigger] mwf(*old(self), fed) && fin1(conv(x@))
                     ==> mwf(*final(self), fed.push(as_rows(conv(x@), old(self).n_chains as int, old(self).n_params as int))),   // [C13.multi_tracker_step_appends_to_every_chain]
         //@body id=mct_step file=src/stats.rs impl_self=MultiChainTracker name=step props=C13
